@@ -6,6 +6,7 @@ import D2P.Model.Iterators
 import D2P.Model.Lifecycle
 import D2P.Check.C01
 import D2P.Check.C13
+import D2P.Check.Merge
 import D2P.Model.Replace
 import D2P.Model.Save
 /-!
@@ -233,7 +234,9 @@ def handleMerged (j : Json) : Except String Json := do
           | .error _ => true)
       | .error _ => false
     pure (Json.mkObj ((cs.map fun r => (String.ofList r.path, jM (fun cr => jXml cr.2) (rootElement o a files r))) ++
-      [("<again>", .arr (again.map fun r => jStr r.path).toArray)]))
+      [("<again>", .arr (again.map fun r => jStr r.path).toArray),
+       -- "<notgood>": the parts whose SOURCE tree fails `goodTree`, the hypothesis of `mergeElems_idem`
+       ("<notgood>", .arr ((cs.filter fun r => match a.readXml r.path with | .ok root => !goodTree root | .error _ => false).map fun r => jStr r.path).toArray)]))
 
 mutual
 /-- the paragraphs of a tree, in document order -/
